@@ -75,12 +75,15 @@ pub fn replay() {
                     // frame: the other sub-nodes read as before
                     let frame_ok = SUBS.iter().all(|n| *n == node || s.get_node(*n) == seg.get_node(*n));
                     let getfeat_ok = seg.get_feat(node, mask) == seg.get_node(node).map(|n| n & mask);
-                    let nm_ok = seg.node_match(node, seg.get_node(node)) && seg.is_node_some(node) == seg.get_node(node).is_some() && seg.is_node_none(node) != seg.is_node_some(node);
+                    // the match equation in full: node_match(node, v) <=> get_node(node) == v, for the absent value, zero, the stored value and its neighbours
+                    let cur = seg.get_node(node);
+                    let probes = [None, Some(0u8), Some(1), Some(3), Some(63), cur, cur.map(|c| c ^ 1), cur.map(|c| c ^ 2)];
+                    let nm_ok = probes.iter().all(|v| seg.node_match(node, *v) == (cur == *v)) && seg.is_node_some(node) == cur.is_some() && seg.is_node_none(node) != seg.is_node_some(node);
                     if unopt(s.get_node(node)) == e && seg.feat_match(node, mask, pos) == em && frame_ok && getfeat_ok && nm_ok {
                         sum.agree += 1;
                     } else {
                         sum.mismatch(json!({"packed": u, "feature": f, "positive": pos, "expected_node": e, "observed_node": unopt(s.get_node(node)),
-                                            "expected_match": em, "observed_match": seg.feat_match(node, mask, pos), "frame_ok": frame_ok}));
+                                            "expected_match": em, "observed_match": seg.feat_match(node, mask, pos), "frame_ok": frame_ok, "get_feat_ok": getfeat_ok, "node_match_equation_ok": nm_ok}));
                     }
                 }
             }
@@ -103,7 +106,9 @@ pub fn replay() {
                         if e != u { sum.nontrivial += 1; }
                         let em = fr[mkey].as_bool().unwrap();
                         let others_ok = [NodeKind::Root, NodeKind::Manner, NodeKind::Laryngeal].iter().all(|n| *n == node || s.get_node(*n) == seg.get_node(*n)) && s.place == seg.place;
-                        if unopt(s.get_node(node)) == e && seg.feat_match(node, mask, pos) == em && others_ok && seg.get_feat(node, mask) == Some(u as u8 & mask) {
+                        let cur = seg.get_node(node);
+                        let nm_ok = [None, Some(0u8), Some(1), Some(255), cur, cur.map(|c| c ^ 1), cur.map(|c| c ^ 4)].iter().all(|v| seg.node_match(node, *v) == (cur == *v));
+                        if unopt(s.get_node(node)) == e && seg.feat_match(node, mask, pos) == em && others_ok && nm_ok && seg.get_feat(node, mask) == Some(u as u8 & mask) {
                             sum.agree += 1;
                         } else {
                             sum.mismatch(json!({"node": key, "byte": u, "feature": f, "positive": pos, "expected": e, "observed": unopt(s.get_node(node)), "expected_match": em}));
